@@ -10,7 +10,6 @@ import (
 	"github.com/ipfs/go-cid"
 	"github.com/ipld/go-ipld-prime"
 	"github.com/ipld/go-ipld-prime/codec/dagcbor"
-	"github.com/ipld/go-ipld-prime/datamodel"
 	"github.com/libp2p/go-libp2p/core/network"
 	"github.com/libp2p/go-libp2p/core/peer"
 	"github.com/libp2p/go-msgio"
@@ -179,15 +178,16 @@ func (mh *MessageHandler) fromIPLD(ibm *ipldbind.GraphSyncMessageRoot) (message.
 				continue
 			}
 
-			root := cid.Undef
-			if req.Root != nil {
-				root = *req.Root
+			// a new request is meaningless without a root and a selector, and the
+			// managers that process it assume both are present
+			if req.Root == nil || !req.Root.Defined() {
+				return message.GraphSyncMessage{}, fmt.Errorf("invalid new request %s: no root", id.String())
 			}
-
-			var selector datamodel.Node
-			if req.Selector != nil {
-				selector = *req.Selector
+			if req.Selector == nil || *req.Selector == nil {
+				return message.GraphSyncMessage{}, fmt.Errorf("invalid new request %s: no selector", id.String())
 			}
+			root := *req.Root
+			selector := *req.Selector
 
 			var priority graphsync.Priority
 			if req.Priority != nil {
